@@ -16,8 +16,8 @@ CONSTANTS MaxLen,        \* steps per behaviour
           Exports,       \* BOOLEAN: include export/import steps (C19)
           Locals         \* BOOLEAN: include replica-local steps (C01)
 
-VARIABLES hist, nv, nc, nl, np, blocks, dels, liq, vfund, daoh, agr, fgr
-vars == <<hist, nv, nc, nl, np, blocks, dels, liq, vfund, daoh, agr, fgr>>
+VARIABLES hist, nv, nc, nl, np, blocks, dels, liq, vfund, daoh, agr, fgr, appr
+vars == <<hist, nv, nc, nl, np, blocks, dels, liq, vfund, daoh, agr, fgr, appr>>
 
 Accts == {"a1", "a2", "a3", "a4", "a5", "a6"}
 Amts  == {"1", "1000", "1000000000000000000", "250000000000000000000", "3000000000000000000000"}
@@ -38,7 +38,7 @@ VC(f, to) == <<[k |-> "vest_create", from |-> f, to |-> to, amt |-> "30000000000
                [k |-> "send", from |-> f, to |-> to, amt |-> "1000000000000000000"]>>
 Prologue == <<
     Blk(5000, VC("a1", "vx1") \o VC("a2", "vx2") \o
-              <<[k |-> "deploy", from |-> "a3", slots |-> 3], [k |-> "deploy_empty", from |-> "a4"], [k |-> "deploy_probe", from |-> "a5"],
+              <<[k |-> "deploy", from |-> "a3", slots |-> 3], [k |-> "deploy_empty", from |-> "a4"], [k |-> "deploy_probe", from |-> "a5"], [k |-> "deploy_agent", from |-> "a2"],
                 [k |-> "dao_fund", from |-> "a5", amt |-> "250000000000000000000"],
                 [k |-> "delegate", from |-> "a6", val |-> 0, amt |-> "250000000000000000000"]>>),
     Blk(5000, <<[k |-> "liquidate", from |-> "vx1", to |-> "a1", amt |-> "1000000000000000000000"],
@@ -46,9 +46,13 @@ Prologue == <<
                 [k |-> "liquidate", from |-> "vx1", to |-> "a3", amt |-> "1500000000000000000000"],
                 \* more DAO holders than a query page holds; a vesting account at the address of a4's next contract
                 [k |-> "dao_scatter", from |-> "a5", n |-> 120, salt |-> 0, amt |-> "1000000000000000"],
+                [k |-> "pc_approve_agent", from |-> "a6", amt |-> "900000000000000000000000"],
                 [k |-> "convert_into_vesting", from |-> "a6", to |-> "next:a4", amt |-> "1000000000000000000", lock |-> 3000, vest |-> 3000,
                  merge |-> FALSE, stake |-> FALSE, val |-> 0, startOff |-> -20]>>),
-    Blk(5000, <<[k |-> "redeem", from |-> "a2", to |-> "a6", amt |-> "1000000000000000000000", id |-> 1],
+    \* (the first unbonding of the history goes through the agent contract, after a zero-value call to the still empty
+    \* not-bonded pool)
+    Blk(5000, <<[k |-> "agent_undelegate", from |-> "a6", val |-> 0, amt |-> "1000000000000000000", ping |-> "notbonded"],
+                [k |-> "redeem", from |-> "a2", to |-> "a6", amt |-> "1000000000000000000000", id |-> 1],
                 [k |-> "deploy", from |-> "a4", slots |-> 2],
                 [k |-> "gov_toggle", from |-> "a1", id |-> 0],
                 [k |-> "gov_vote", from |-> "v1", id |-> 1, opt |-> "yes"], [k |-> "gov_vote", from |-> "v2", id |-> 1, opt |-> "yes"],
@@ -65,7 +69,7 @@ Init == /\ hist = Prologue
         /\ dels = {<<"v1", 0>>, <<"v2", 1>>, <<"v3", 2>>} \cup {<<"a6", 0>>}  \* (delegator, validator index) pairs believed to exist
         /\ vfund = {<<"vx1", "a1">>, <<"vx2", "a2">>}     \* (vesting account, funder) pairs
         /\ daoh = {"a5"}                                  \* accounts believed to hold DAO shares
-        /\ agr = {} /\ fgr = {}
+        /\ agr = {} /\ fgr = {} /\ appr = {"a6"}
         /\ liq = {<<0, "a1">>, <<2, "a3">>}                                            \* (liquid denom id, holder) pairs believed to exist
 
 \* an existing delegation most of the time, an arbitrary pair otherwise
@@ -75,6 +79,7 @@ DaoH(h) == IF daoh # {} /\ Pick(1..5, h) # 1 THEN Pick(daoh, h) ELSE Pick(Accts,
 \* (granter, grantee, message kind) of an authorization / (granter, grantee) of a fee allowance believed to exist
 Ag(h) == IF agr # {} /\ Pick(1..5, h) # 1 THEN Pick(agr, h) ELSE <<Pick(Accts, h), Pick(Accts, h), Pick({"send", "delegate", "fund"}, h)>>
 Fg(h) == IF fgr # {} /\ Pick(1..5, h) # 1 THEN Pick(fgr, h) ELSE <<Pick(Accts, h), Pick(Accts, h)>>
+Appr(h) == IF appr # {} /\ Pick(1..5, h) # 1 THEN Pick(appr, h) ELSE Pick(Accts, h)     \* accounts believed to have approved the agent
 Liq(h) == IF liq # {} /\ Pick(1..5, h) # 1 THEN Pick(liq, h) ELSE <<Pick(0..1, h), Pick(Accts, h)>>
 
 \* one transaction; `slot` distinguishes the draws inside one block
@@ -137,12 +142,21 @@ TxOfKind(h, k, f, d, q, vf) ==
       [] k = 45 -> [k |-> "pc_ibc_transfer", from |-> f, amt |-> Pick(Amts, h)]
       \* (not in C19 histories: what BLOCKHASH answers for blocks before an import is header history, not state)
       [] k = 48 -> IF Exports THEN [k |-> "send", from |-> f, to |-> "a1", amt |-> "1"] ELSE [k |-> "call_probe", from |-> f]
+      \* the staking precompile reached through a contract (with the sender's approval), after a zero-value call to a
+      \* module account, a fresh address or nobody
+      [] k = 49 -> [k |-> "pc_approve_agent", from |-> f, amt |-> Pick({"250000000000000000000", "900000000000000000000000"}, h)]
+      [] k = 50 -> [k |-> "agent_delegate", from |-> Appr(h), val |-> Pick(0..2, h), amt |-> Pick(Amts, h),
+                    ping |-> Pick({"none", "notbonded", "bonded", "distr", "fresh", "self"}, h)]
+      [] k = 51 -> LET dd == Del(h) IN [k |-> "agent_undelegate", from |-> dd[1], val |-> dd[2], amt |-> Pick(Amts, h),
+                    ping |-> Pick({"none", "notbonded", "notbonded", "bonded", "distr", "fresh"}, h)]
+      [] k = 52 -> [k |-> "send_mod", from |-> f, mod |-> Pick(0..6, h), amt |-> Pick({"1", "1000000000000000000"}, h)]
+      [] k = 53 -> [k |-> "gov_erc20_params", from |-> f, enable |-> (Pick(1..3, h) = 1)]
       [] k = 46 -> [k |-> "gov_coinomics", from |-> f, enable |-> (Pick(1..2, h) = 1)]
       [] k = 47 -> [k |-> "dao_scatter", from |-> DaoH(h), n |-> Pick({3, 40}, h), salt |-> Len(h), amt |-> "1000"]
 
-KindOf(k0) == IF k0 <= 48 THEN k0 ELSE IF k0 = 49 THEN 19 ELSE IF k0 = 50 THEN 17 ELSE IF k0 = 51 THEN 15
-              ELSE IF k0 <= 53 THEN 38 ELSE IF k0 = 54 THEN 41 ELSE IF k0 = 55 THEN 42 ELSE 8
-RandTx(h, slot) == TxOfKind(h, KindOf(Pick(1..56, h)), Pick(Accts, h), Del(h), Liq(h), Vf(h))
+KindOf(k0) == IF k0 <= 53 THEN k0
+              ELSE IF k0 <= 54 THEN 38 ELSE IF k0 = 55 THEN 41 ELSE IF k0 = 56 THEN 42 ELSE IF k0 <= 58 THEN 51 ELSE IF k0 = 59 THEN 49 ELSE 8
+RandTx(h, slot) == TxOfKind(h, KindOf(Pick(1..60, h)), Pick(Accts, h), Del(h), Liq(h), Vf(h))
 
 NewVest(txs)   == Cardinality({j \in DOMAIN txs : txs[j].k = "vest_create" /\ txs[j].merge = FALSE})
 Count(txs, kk) == Cardinality({j \in DOMAIN txs : txs[j].k = kk})
@@ -153,12 +167,12 @@ WithTopUps(txs) ==
           IF j = 0 THEN <<>>
           ELSE IF txs[j].k = "vest_create" /\ txs[j].merge = FALSE
                THEN F[j-1] \o <<txs[j], [k |-> "send", from |-> txs[j].from, to |-> txs[j].to, amt |-> "1000000000000000000"]>>
-               ELSE IF txs[j].k \in {"gov_toggle", "gov_evm_params", "gov_coinomics"}
+               ELSE IF txs[j].k \in {"gov_toggle", "gov_evm_params", "gov_coinomics", "gov_erc20_params"}
                THEN F[j-1] \o <<txs[j]>> \o [v \in 1..3 |-> [k |-> "gov_vote", from |-> "v" \o ToString(v),
-                                                             id |-> np + 1 + Cardinality({y \in 1..(j-1) : txs[y].k \in {"gov_submit", "gov_submit2", "gov_toggle", "gov_evm_params", "gov_coinomics"}}), opt |-> "yes"]]
+                                                             id |-> np + 1 + Cardinality({y \in 1..(j-1) : txs[y].k \in {"gov_submit", "gov_submit2", "gov_toggle", "gov_evm_params", "gov_coinomics", "gov_erc20_params"}}), opt |-> "yes"]]
                ELSE IF txs[j].k = "gov_submit2"
                THEN F[j-1] \o <<txs[j]>> \o [v \in 1..3 |-> [k |-> "gov_vote", from |-> "v" \o ToString(v),
-                                                             id |-> np + 1 + Cardinality({y \in 1..(j-1) : txs[y].k \in {"gov_submit", "gov_submit2", "gov_toggle", "gov_evm_params", "gov_coinomics"}}), opt |-> "veto"]]
+                                                             id |-> np + 1 + Cardinality({y \in 1..(j-1) : txs[y].k \in {"gov_submit", "gov_submit2", "gov_toggle", "gov_evm_params", "gov_coinomics", "gov_erc20_params"}}), opt |-> "veto"]]
                ELSE Append(F[j-1], txs[j])
     IN F[Len(txs)]
 
@@ -178,19 +192,20 @@ Block ==
        /\ nv' = nv + NewVest(one)
        /\ nc' = nc + Count(one, "deploy")
        /\ nl' = nl + Count(one, "liquidate")
-       /\ np' = np + Count(one, "gov_submit") + Count(one, "gov_submit2") + Count(one, "gov_toggle") + Count(one, "gov_evm_params") + Count(one, "gov_coinomics")
+       /\ np' = np + Count(one, "gov_submit") + Count(one, "gov_submit2") + Count(one, "gov_toggle") + Count(one, "gov_evm_params") + Count(one, "gov_coinomics") + Count(one, "gov_erc20_params")
        /\ blocks' = blocks + 1
-       /\ dels' = dels \cup {<<one[j].from, one[j].val>> : j \in {x \in DOMAIN one : one[x].k \in {"delegate", "pc_delegate"}}}
+       /\ dels' = dels \cup {<<one[j].from, one[j].val>> : j \in {x \in DOMAIN one : one[x].k \in {"delegate", "pc_delegate", "agent_delegate"}}}
                         \cup {<<one[j].from, one[j].val2>> : j \in {x \in DOMAIN one : one[x].k = "redelegate"}}
        /\ vfund' = vfund \cup {<<one[j].to, one[j].from>> : j \in {x \in DOMAIN one : one[x].k = "vest_create" /\ one[x].merge = FALSE}}
        /\ daoh' = daoh \cup {one[j].from : j \in {x \in DOMAIN one : one[x].k \in {"dao_fund", "two_msgs"}}}
                         \cup {one[j].to : j \in {x \in DOMAIN one : one[x].k \in {"dao_xfer", "dao_xfer_ratio"}}}
        /\ agr' = agr \cup {<<one[j].from, one[j].to, one[j].msg>> : j \in {x \in DOMAIN one : one[x].k = "authz_grant"}}
+       /\ appr' = appr \cup {one[j].from : j \in {x \in DOMAIN one : one[x].k = "pc_approve_agent"}}
        /\ fgr' = fgr \cup {<<one[j].from, one[j].to>> : j \in {x \in DOMAIN one : one[x].k = "feegrant"}}
        /\ liq' = liq \cup {<<nl + Cardinality({y \in 1..(j-1) : one[y].k = "liquidate"}), one[j].to>> :
                               j \in {x \in DOMAIN one : one[x].k = "liquidate"}}
 
-Other(e) == hist' = Append(hist, e) /\ UNCHANGED <<nv, nc, nl, np, blocks, dels, liq, vfund, daoh, agr, fgr>>
+Other(e) == hist' = Append(hist, e) /\ UNCHANGED <<nv, nc, nl, np, blocks, dels, liq, vfund, daoh, agr, fgr, appr>>
 
 SimNext ==
     /\ Len(hist) < MaxLen
